@@ -1097,5 +1097,79 @@ theorem flags_sternary (a : AutoAlpha) (t n : Int) (b : Bool) :
       Conv.apply, PyVal.pyEq, PyVal.numVal, PyVal.truthy, PyVal.isNone, alphaText, PyVal.isStr,
       PyVal.pyStr, AutoAlpha.val, AutoAlpha.flags, ht, hn, h8, h5]
 
+/-! ### second fix round: lists of integers print item by item and read back; closed forms for
+    `quantized_bits` -/
+
+/-- the number-literal tree of `str(i)` (element of a list literal) -/
+def intNumLit (i : Int) : NumLit := .int (decide (i < 0)) (Nat.toDigits 10 i.natAbs)
+
+theorem intNumLit_rd (i : Int) : (intNumLit i).rd = true := allDigits_toDigits _
+theorem intNumLit_text (i : Int) : (intNumLit i).text = (toString i).toList := intLit_text i
+theorem intNumLit_num (i : Int) : (intNumLit i).num = .int i := by
+  have h := intLit_val i
+  simp only [intLit, Lit.val, PyVal.int.injEq] at h
+  simp only [intNumLit, NumLit.num, h]
+
+theorem toList_intercalate_comma (l : List String) :
+    (",".intercalate l).toList = joinComma (l.map String.toList) := by
+  induction l with
+  | nil => rfl
+  | cons a t ih =>
+    cases t with
+    | nil => simp [joinComma]
+    | cons b t =>
+      rw [String.intercalate_cons_cons]
+      simp only [String.toList_append, ih, List.map_cons, joinComma]
+      simp
+
+theorem listOrScalar_ints (l : List Int) :
+    (listOrScalar (.list (l.map Num.int))).toList = (Lit.list (l.map intNumLit)).text := by
+  simp only [listOrScalar, Lit.text, String.toList_append, toList_intercalate_comma, List.map_map]
+  have : (String.toList ∘ Num.pyStr ∘ Num.int) = (NumLit.text ∘ intNumLit) := by
+    funext i; simp [Num.pyStr, intNumLit_text]
+  rw [this]; rfl
+
+theorem flagLit_intList (key : Option String) (hk : ∀ k, key = some k → isIdent k = true) (l : List Int) :
+    FlagLit ⟨key, .list (l.map Num.int), listOrScalar (.list (l.map Num.int))⟩
+      (argOfFlag ⟨key, .list (l.map Num.int), listOrScalar (.list (l.map Num.int))⟩
+        (Lit.list (l.map intNumLit))) := by
+  have hrd : (Lit.list (l.map intNumLit)).rd = true := by
+    simp [Lit.rd, intNumLit_rd]
+  have hval : (Lit.list (l.map intNumLit)).val = .list (l.map Num.int) := by
+    simp [Lit.val, List.map_map, Function.comp_def, intNumLit_num]
+  cases key with
+  | none => exact ⟨hrd, by simp [Arg.text, Flag.chars, argOfFlag, listOrScalar_ints], rfl, hval⟩
+  | some k =>
+    refine ⟨?_, by simp [Arg.text, Flag.chars, argOfFlag, listOrScalar_ints], rfl, hval⟩
+    simp [argOfFlag, Arg.rd, hk k rfl, hrd]
+
+/-- the options of `quantized_bits(b, alpha=a, scale_axis=ax, elements_per_scale=es)` as stored -/
+def bitsEnv (b : Nat) (sym a ax es : PyVal) : Env :=
+  [("bits", .int b), ("integer", .int 0), ("symmetric", sym), ("keep_negative", .bool true),
+   ("alpha", a), ("use_stochastic_rounding", .bool false), ("scale_axis", ax),
+   ("qnoise_factor", .float 1), ("var_name", .none), ("use_ste", .bool true),
+   ("use_variables", .bool false), ("elements_per_scale", es), ("min_po2_exponent", .none),
+   ("max_po2_exponent", .none), ("post_training_scale", .none)]
+
+theorem flags_bits_alpha (b : Nat) (n : Int) :
+    flagsF ⟨.quantized_bits, bitsEnv b (.int 0) (.int n) .none .none⟩
+      = .ok [⟨none, .int b, toString (b : Int)⟩, ⟨none, .int 0, "0"⟩, ⟨none, .int 0, "0"⟩,
+             ⟨some "alpha", .int n, toString n⟩] := by
+  have h0 : Int.repr 0 = "0" := by decide
+  simp [flagsF, posFlags, kwFlags, posSpec, kwSpec, bitsEnv, Q.get, Env.get, List.lookup, Cond.holds, mkFlag,
+    Conv.apply, PyVal.truthy, PyVal.isNone, alphaText, PyVal.isStr,
+    PyVal.pyStr, PyVal.pyInt, h0]
+
+theorem flags_bits_axes (b : Nat) (l m : List Int) :
+    flagsF ⟨.quantized_bits, bitsEnv b (.bool true) (.str "auto") (.list (l.map Num.int)) (.list (m.map Num.int))⟩
+      = .ok [⟨none, .int b, toString (b : Int)⟩, ⟨none, .int 0, "0"⟩, ⟨none, .int 1, "1"⟩,
+             ⟨some "alpha", .str "auto", "'auto'"⟩,
+             ⟨some "scale_axis", .list (l.map Num.int), listOrScalar (.list (l.map Num.int))⟩,
+             ⟨some "elements_per_scale", .list (m.map Num.int), listOrScalar (.list (m.map Num.int))⟩] := by
+  have h0 : Int.repr 0 = "0" := by decide
+  have h1 : Int.repr 1 = "1" := by decide
+  simp [flagsF, posFlags, kwFlags, posSpec, kwSpec, bitsEnv, Q.get, Env.get, List.lookup, Cond.holds, mkFlag,
+    Conv.apply, PyVal.truthy, PyVal.isNone, alphaText, PyVal.isStr,
+    PyVal.pyStr, PyVal.pyInt, h0, h1]
 
 end QKV.Py
